@@ -218,6 +218,9 @@ def atom_index(key, info):
     return i
 
 
+DEADLINE = [None]
+
+
 def p_const(c):
     c = Fraction(c)
     return {(): c} if c != 0 else {}
@@ -227,9 +230,18 @@ def p_atom(i):
     return {((i, 1),): Fraction(1)}
 
 
+def _tick():
+    if DEADLINE[0] is not None:
+        import time
+        if time.time() > DEADLINE[0]:
+            raise PolyTooBig()
+
+
 def p_add(a, b):
     if len(a) < len(b):
         a, b = b, a
+    if len(b) > 500:
+        _tick()
     r = dict(a)
     for m, c in b.items():
         v = r.get(m)
@@ -286,11 +298,45 @@ class PolyTooBig(Exception):
 MAX_POLY = 400000
 
 
+class poly_budget:
+    def __init__(self, n):
+        self.n = n
+
+    def __enter__(self):
+        global MAX_POLY
+        self.old = MAX_POLY
+        MAX_POLY = self.n
+
+    def __exit__(self, *a):
+        global MAX_POLY
+        MAX_POLY = self.old
+
+
+class time_budget:
+    """with time_budget(s): polynomial arithmetic raises PolyTooBig once s seconds have elapsed"""
+
+    def __init__(self, seconds):
+        self.s = seconds
+
+    def __enter__(self):
+        import time
+        self.old = DEADLINE[0]
+        t = time.time() + self.s
+        DEADLINE[0] = t if self.old is None else min(t, self.old)
+
+    def __exit__(self, *a):
+        DEADLINE[0] = self.old
+
+
 def p_mul(a, b):
     if not a or not b:
         return {}
-    if len(a) * len(b) > 40 * MAX_POLY:
+    if len(a) * len(b) > 8 * MAX_POLY:
         raise PolyTooBig()
+    if DEADLINE[0] is not None and len(a) * len(b) > 200:
+        import time
+        if time.time() > DEADLINE[0]:
+            raise PolyTooBig()
     r = {}
     for m1, c1 in a.items():
         for m2, c2 in b.items():
@@ -356,6 +402,7 @@ def p_subst(a, sub):
     r = {}
     cache = {}
     for m, c in a.items():
+        _tick()
         t = {(): c}
         rest = []
         for v, e in m:
@@ -415,6 +462,23 @@ def rf_norm(n, d):
         if c != 1:
             n = p_scale(n, 1 / c)
         return (n, {(): Fraction(1)})
+    if len(d) > 1 and CTX.auto_rules:
+        # express polynomial factors of the denominator that are arguments of existing sqrt atoms as theta^2
+        # (keeps denominators monomial so that sums use least common multiples instead of products)
+        for (at, k, arg) in CTX.auto_rules:
+            if len(arg) < 2:
+                continue
+            mult = {}
+            while len(d) > 1:
+                q = p_divide(d, arg)
+                if q is None:
+                    break
+                d = q
+                mult[at] = mult.get(at, 0) + 2
+            if mult:
+                d = p_mul(d, {tuple(sorted(mult.items())): Fraction(1)})
+            if len(d) == 1:
+                break
     # cancel common monomial content
     if len(d) == 1:
         (dm, dc), = d.items()
@@ -446,6 +510,30 @@ def rf_norm(n, d):
             if p_is_const(d):
                 return (n, {(): Fraction(1)})
     return (n, d)
+
+
+def cancel_content(n, d):
+    """divide numerator and denominator by their common monomial content"""
+    if not n or not d:
+        return n, d
+    g = None
+    for p in (n, d):
+        for m in p:
+            mm = dict(m)
+            if g is None:
+                g = mm
+            else:
+                for v in list(g):
+                    e = min(g[v], mm.get(v, 0))
+                    if e == 0:
+                        del g[v]
+                    else:
+                        g[v] = e
+            if not g:
+                return n, d
+    def divm(m):
+        return tuple((v, e - g.get(v, 0)) for v, e in m if e - g.get(v, 0))
+    return {divm(m): c for m, c in n.items()}, {divm(m): c for m, c in d.items()}
 
 
 def rf_add(a, b):
@@ -501,7 +589,7 @@ class Ctx:
         self.rules = []  # user rules (atom, power, replacement poly) e.g. unit norm
         self.auto_rules = []  # r^2 -> arg for sqrt atoms with polynomial argument
         self.nonneg = set()  # atom indices known >= 0 (sqrt atoms automatically)
-        self.principal = set()  # Term ids u with u in (-pi, pi]  (so atan2(sin u, cos u) = u)
+        self.principal = set()  # rf_key(nf(u)) of terms u with u in (-pi, pi]  (so atan2(sin u, cos u) = u)
         self.log = []  # axiom instances used
 
     def all_rules(self):
@@ -512,50 +600,41 @@ CTX = Ctx()
 
 
 def reduce_poly(p, subst, rules, maxiter=60):
+    """normal form modulo rewrite rules atom^k -> poly (pairwise coprime pure-power leading terms)"""
     if subst:
         p = p_subst(p, subst)
     if not rules:
         return p
     rmap = {a: (k, rep) for a, k, rep in rules}
+    powc = {}
     for _ in range(maxiter):
-        changed = False
-        out = {}
+        keep = {}
+        groups = {}
         for m, c in p.items():
             hit = None
             for v, e in m:
                 r = rmap.get(v)
                 if r is not None and e >= r[0]:
-                    hit = (v, e, r)
+                    hit = (v, e)
                     break
             if hit is None:
-                v0 = out.get(m)
-                if v0 is None:
-                    out[m] = c
-                else:
-                    v0 += c
-                    if v0 == 0:
-                        del out[m]
-                    else:
-                        out[m] = v0
+                keep[m] = c
                 continue
-            changed = True
-            v, e, (k, rep) = hit
-            rest = tuple((a, b) if a != v else (a, e % k) for a, b in m)
-            rest = tuple(x for x in rest if x[1] > 0)
-            t = p_mul({rest: c}, p_pow(rep, e // k))
-            for m2, c2 in t.items():
-                v0 = out.get(m2)
-                if v0 is None:
-                    out[m2] = c2
-                else:
-                    v0 += c2
-                    if v0 == 0:
-                        del out[m2]
-                    else:
-                        out[m2] = v0
-        p = out
-        if not changed:
+            v, e = hit
+            k = rmap[v][0]
+            rest = tuple(x for x in ((a, b) if a != v else (a, e % k) for a, b in m) if x[1] > 0)
+            g = groups.setdefault((v, e // k), {})
+            g[rest] = g.get(rest, 0) + c
+        if not groups:
             break
+        out = keep
+        for (v, q), coeff in groups.items():
+            pw = powc.get((v, q))
+            if pw is None:
+                pw = p_pow(rmap[v][1], q)
+                powc[(v, q)] = pw
+            out = p_add(out, p_mul({m: c for m, c in coeff.items() if c != 0}, pw))
+        p = out
     return p
 
 
@@ -690,6 +769,18 @@ def _fn_nf(u, args_rf):
         if r is not None:
             CTX.log.append("sqrt of a perfect square of non-negative atoms simplified")
             return r
+    if name in ("sin", "cos", "exp") and args_rf[0][0]:
+        # canonical sign of the argument: sin(-u) = -sin u, cos(-u) = cos u, exp(-u) = 1/exp(u)
+        n, d = args_rf[0]
+        lead = n[min(n)] / d[min(d)]
+        if lead < 0:
+            pos = Fn(name, rf_to_term((p_neg(n), d)))
+            r = nf(pos)
+            if name == "sin":
+                return rf_neg(r)
+            if name == "cos":
+                return r
+            return rf_div((p_const(1), p_const(1)), r)
     if name in ("sin", "cos"):
         n, d = args_rf[0]
         if not n:
@@ -717,7 +808,7 @@ def _fn_nf(u, args_rf):
                 iy, ix = ATOM_LIST[ym[0][0]], ATOM_LIST[xm[0][0]]
                 if iy[0] == "fn" and ix[0] == "fn" and iy[1] == "sin" and ix[1] == "cos":
                     uy, ux = iy[2][0], ix[2][0]
-                    if rf_key(nf(uy)) == rf_key(nf(ux)) and (uy.id in CTX.principal or ux.id in CTX.principal):
+                    if rf_key(nf(uy)) == rf_key(nf(ux)) and rf_key(nf(uy)) in CTX.principal:
                         CTX.log.append("atan2(sin u, cos u) = u for u in (-pi, pi]")
                         return nf(uy)
     keys = tuple(rf_key(a) for a in args_rf)
@@ -728,7 +819,27 @@ def _fn_nf(u, args_rf):
         n, d = args_rf[0]
         if p_is_const(d):
             CTX.auto_rules.append((i, 2, p_scale(n, 1 / d[()])))
+    if name == "atan2" and rf_nonneg(args_rf[0]):
+        CTX.nonneg.add(i)  # atan2(y, x) in [0, pi] for y >= 0
     return (p_atom(i), p_const(1))
+
+
+def rf_nonneg(rf):
+    """syntactic: a single monomial with positive coefficient whose odd-power atoms are known non-negative"""
+    n, d = rf
+    if not n:
+        return True
+    if len(n) != 1 or len(d) != 1:
+        return False
+    (mn, cn), = n.items()
+    (md, cd), = d.items()
+    if cn / cd < 0:
+        return False
+    for m in (mn, md):
+        for v, e in m:
+            if e % 2 and v not in CTX.nonneg:
+                return False
+    return True
 
 
 def nf(t: Term):
@@ -898,3 +1009,66 @@ def symbols_of(t: Term, acc=None):
             if isinstance(a, Term):
                 stack.append(a)
     return acc
+
+
+def diff(t: Term, name: str):
+    """symbolic partial derivative d t / d Sym(name) (memoised post-order)"""
+    cache = {}
+    stack = [t]
+    zero, one = Const(0), Const(1)
+    while stack:
+        u = stack[-1]
+        if u.id in cache:
+            stack.pop()
+            continue
+        pend = [a for a in u.args if isinstance(a, Term) and a.id not in cache]
+        if pend:
+            stack.extend(pend)
+            continue
+        stack.pop()
+        op = u.op
+        if op == "sym":
+            r = one if u.args[0] == name else zero
+        elif op == "const":
+            r = zero
+        elif op == "neg":
+            r = Neg(cache[u.args[0].id])
+        elif op == "add":
+            r = Add(cache[u.args[0].id], cache[u.args[1].id])
+        elif op == "sub":
+            r = Sub(cache[u.args[0].id], cache[u.args[1].id])
+        elif op == "mul":
+            a, b = u.args
+            r = Add(Mul(cache[a.id], b), Mul(a, cache[b.id]))
+        elif op == "div":
+            a, b = u.args
+            da, db = cache[a.id], cache[b.id]
+            if db.op == "const" and db.args[0] == 0:
+                r = Div(da, b)
+            else:
+                r = Div(Sub(Mul(da, b), Mul(a, db)), Mul(b, b))
+        elif op == "fn":
+            fn = u.args[0]
+            a = u.args[1:]
+            d = [cache[x.id] for x in a]
+            if all(x.op == "const" and x.args[0] == 0 for x in d):
+                r = zero
+            elif fn == "sqrt":
+                r = Div(d[0], Mul(Const(2), u))
+            elif fn == "sin":
+                r = Mul(Fn("cos", a[0]), d[0])
+            elif fn == "cos":
+                r = Neg(Mul(Fn("sin", a[0]), d[0]))
+            elif fn == "exp":
+                r = Mul(u, d[0])
+            elif fn == "log":
+                r = Div(d[0], a[0])
+            elif fn == "atan2":
+                y, x = a
+                r = Div(Sub(Mul(x, d[0]), Mul(y, d[1])), Add(Mul(x, x), Mul(y, y)))
+            else:
+                raise ValueError("diff of " + fn)
+        else:
+            raise ValueError(op)
+        cache[u.id] = r
+    return cache[t.id]
